@@ -1870,6 +1870,12 @@ func (f *formatter) writeStartMaybeCompact(node ast.Node, forceCompact bool) {
 	}
 	f.Indent(node)
 	f.writeNode(node)
+	if _, ok := node.(ast.CompositeNode); ok {
+		// The trailing comments of a composite node are those of its last
+		// token, which were written along with that token (otherwise they
+		// would be written twice).
+		return
+	}
 	if info.TrailingComments().Len() > 0 {
 		f.writeInlineComments(info.TrailingComments())
 	}
